@@ -36,6 +36,31 @@ CHECKS = {
             'Translation validation by execution: 1232 sweep cells (136 construct payloads x up to 9 contexts: top level, function, method, loop, then, else, match arm, handle arm, function-in-loop-in-if) and seeded random typed programs are transpiled with annotate on and off; each emitted module is run and its behaviour compared with the reference semantics; every disagreement is re-run, shrunk structurally and given a construct-tag signature.',
             'Trusts CPython 3.11 for the behaviour of Python and the reference interpreter in mv/lang.py as the reading of the documented semantics (small, canary-tested); rejected programs are not judged here (C05 owns over-rejection).',
             'DESIGN.md section 4, C01'),
+    'C05': ('exploration',
+            'verdict-comparison runtime monitor: systematic single-fault sweep of small programs through the real pipeline; accept/reject compared with the reference typing discipline; accepted violating cells are executed to attach the run-time harm',
+            '7653 cells: use-site (call, nested call argument, method call, constructor, annotated local, reassignment, field assignment) x filler of each type in several syntactic forms x 9 contexts; arity cells for functions, methods (also inherited) and constructors incl. defaults; return cells (implicit/explicit, through if/else/match/loop, with and without preceding statements, in functions and methods). Demanded verdict from Int <: Float <: Complex, class inheritance and Any.',
+            'The reference discipline is the one the property states; every cell is a small program that differs from an accepted program by one use; a mismatch that occurs in every context of its group is reported as one context-independent signature. Cells are deterministic (seed independent) and all are evaluated in both tiers.',
+            'DESIGN.md section 4, C05'),
+    'C06': ('exploration',
+            'verdict-comparison runtime monitor: systematic single-fault sweep of small programs through the real pipeline; accept/reject compared with the reference typing discipline; accepted violating cells are executed to attach the run-time harm',
+            '6851 cells: T in (Int, Float, Str, Bool, user class, tuple, List[Int]) x consuming position (initialiser, reassignment, field, argument, method argument, constructor argument, return, operand, receiver) x source (None, T? variable holding None / a value, T? field, T?-returning call, T? parameter, x ? d, plain T) x 9 contexts, both directions.',
+            'The reference discipline is the one the property states; every cell is a small program that differs from an accepted program by one use; a mismatch that occurs in every context of its group is reported as one context-independent signature. Cells are deterministic (seed independent) and all are evaluated in both tiers.',
+            'DESIGN.md section 4, C06'),
+    'C07': ('exploration',
+            'verdict-comparison runtime monitor: systematic single-fault sweep of small programs through the real pipeline; accept/reject compared with the reference typing discipline; accepted violating cells are executed to attach the run-time harm',
+            '1972 cells: definition form (plain, annotated, tuple component, class argument, class-body field, parameter) x fin/mutable x assignment operator (:= += -= *= ^= <<= >>=) x nesting of the assignment x context; assignments through self / fin self / fin receiver variables; never-defined targets; shadowing re-definitions that flip mutability in both directions.',
+            'The reference discipline is the one the property states; every cell is a small program that differs from an accepted program by one use; a mismatch that occurs in every context of its group is reported as one context-independent signature. Cells are deterministic (seed independent) and all are evaluated in both tiers.',
+            'DESIGN.md section 4, C07'),
+    'C08': ('exploration',
+            'verdict-comparison runtime monitor: systematic single-fault sweep of small programs through the real pipeline; accept/reject compared with the reference typing discipline; accepted violating cells are executed to attach the run-time harm',
+            '11016 static cells: raised class (hierarchy of depth 3) x raise source (raise statement, function call, method call, callee declaring two exceptions) x position (plain, initialiser, if, loop, match arm, arm of an outer handle, arm of its own handle) x declared set x handled set (all subsets of size <= 2); scope cells (protection ends after a handle) and declare cells (only Exception subclasses). Dynamic half: 75 handle/raise programs executed under both flags and compared arm by arm with the reference interpreter.',
+            'The reference discipline is the one the property states; every cell is a small program that differs from an accepted program by one use; a mismatch that occurs in every context of its group is reported as one context-independent signature. Cells are deterministic (seed independent) and all are evaluated in both tiers.',
+            'DESIGN.md section 4, C08'),
+    'C09': ('exploration',
+            'verdict-comparison runtime monitor: systematic single-fault sweep of small programs through the real pipeline; accept/reject compared with the reference typing discipline; accepted violating cells are executed to attach the run-time harm',
+            '974 cells: placement of the definition (never, before, later, one branch, both branches, one/all match arms, loop body, loop / match / comprehension variable outside its scope, handle arm, shadowing, nesting depth 1-3, tuple definitions) x use form (print, initialiser, argument, condition, interpolation) x 7 contexts; forward use of top-level functions/classes; field reads and completeness in explicit constructors (through if/match).',
+            'The reference discipline is the one the property states; every cell is a small program that differs from an accepted program by one use; a mismatch that occurs in every context of its group is reported as one context-independent signature. Cells are deterministic (seed independent) and all are evaluated in both tiers.',
+            'DESIGN.md section 4, C09'),
 }
 
 NOT_YET = 'monitor not built yet in this revision (construction order: DESIGN.md section 9); not claimed rather than claimed weakly'
